@@ -60,7 +60,7 @@ if [ $RC -eq 0 ] && [ "$CRASHES" -gt 0 ] && ! grep -q "FUZZ-VIOLATION" "$ROOT"/l
   # a crash that is not one of our reports: sanitizer finding, timeout or OOM inside the target
   TO=$(ls -t "$FUZZ"/artifacts/*/timeout-* "$FUZZ"/artifacts/*/oom-* 2>/dev/null | head -1)
   if [ "$ID" = "C01" ] && [ -n "$TO" ] && [ "$TO" -nt "$STAMP" ]; then
-    # a timeout / out-of-memory artifact: confirm with the stable harness (30 s / 4 GiB guard)
+    # a timeout / out-of-memory artifact: confirm with the stable harness (60 s per lexer call / 4 GiB guard)
     R="$ROOT/replays/found/C01-fuzz-hang-$(basename "$TO").json"
     python3 - "$TO" "$R" <<'PY'
 import json, sys
